@@ -98,11 +98,12 @@ def check_characters(ctx, rep, tier):
                     if t.get(k, m, h) != t.get(k, m & ~(B.RA | B.LA), h):
                         has_altgr = True
             for m in range(512):
-                if B.caps(m):
-                    continue
                 S, G, C_ = B.S(m), B.G(m), B.C(m)
                 if S and G:
                     continue
+                if B.caps(m) and not (G and has_altgr):
+                    continue     # CapsLock-on states of the base/shift levels are C10's subject; the AltGr level holds
+                                 # "whatever the lock flags are"
                 lvl = 'altgr' if G else ('shift' if S else 'base')
                 for h in (B.MAP, B.IGN):
                     if C_ and h == B.MAP:
@@ -363,6 +364,12 @@ def check_numpad(ctx, rep, tier):
                 rep.finding('C15 layout=%s key=%s %s expected=%s got=%s' % (
                     name, kname, 'numlock=%d' % B.num(m) if kname.startswith('Numpad') and kname not in K['numpad_operators'] and kname != 'NumpadEnter' else 'any',
                     '|'.join(show_out(ctx, w) for w in sorted(want_set)), show_out(ctx, o)), cell_desc(ctx, t, k, m, h))
+        seps = {t.get(kc[K['numpad_period']], m, h) for m in range(512) if B.num(m) for h in (B.MAP, B.IGN)}
+        rep.ob('one decimal separator per layout', 1, 1 if len(seps) == 1 else 0)
+        if len(seps) != 1:
+            rep.finding('C15 layout=%s key=NumpadPeriod separator-varies' % name,
+                        'with NumLock on the decimal key types %s depending on other modifiers: a layout has one decimal separator' % (
+                            ' / '.join(show_out(ctx, x) for x in sorted(seps))))
         for m in range(512):
             for h in (B.MAP, B.IGN):
                 on = B.num(m)
